@@ -5,6 +5,7 @@ cd /verif
 ids="$@"; [ -z "$ids" ] && ids=$(ls seeded)
 for id in $ids; do
   prop=$(python3 -c "import json;print(json.load(open('seeded/$id/meta.json'))['breaks_property'])")
+  if grep -q '"neutralised"' seeded/$id/meta.json; then echo "$id $prop: neutralised by a later repair (skipped)"; continue; fi
   out=$(harness/try_mutant.sh seeded/$id/patch.diff $prop 2>&1 | grep -v KNOWN | grep -E "VIOLATION|exit|apply" | head -3 | tr '\n' ' ')
   case "$out" in
     *"does not apply"*) echo "$id $prop: patch no longer applies (the code it changed was repaired since)";;
